@@ -131,6 +131,60 @@ CLAIMED["C13"] = dict(
     note="Trusted in addition: rand_distr sampler internals (ziggurat, BTPE, rejection loops) are a parameter (raw value) of the model; their termination is watchdog evidence, not a theorem.",
 )
 
+SIM_NOTE = ("Trusted in addition: the hand-written simulator model (lean/MbVerif/Sim: BinaryHeap in array layout, event order, network bottleneck, pick_next with explicit fuel, main loop) "
+            "tied to lib.rs/network.rs/queue*.rs by exact-trace comparison of every generated run (8 runs per case: main, repeat, unfiltered, three filters, capped, sim()); the framework model supplies the machines' actions "
+            "and the hook log of the run is the random oracle; Instant/Duration arithmetic is modelled as checked integers; integration delays are outside the properties and not modelled.")
+CLAIMED["C14"] = dict(
+    text="Proof (Lean 4) of the per-packet path on the simulator model: NormalSent -> TunnelSent (same side, same time) -> TunnelRecv (other side, exactly one configured delay later while the window count stays within the limit; "
+         "nothing is queued as aggregate delay then) -> NormalRecv, no step creates padding; with no machines the framework returns no actions and draws no randomness for any events, so trigger_update never sets a slot, a timer or blocking. "
+         "The composed identity statement (returned trace = input trace, mirrored and shifted on the server) is NOT a theorem (it needs a window-covering and a heap-ordering lemma): it is the monitor C14.holds, evaluated on the implementation's "
+         "output of every generated run through sim and sim_advanced under every filter combination, plus the exact-trace correspondence with the model.",
+    ref="7 (C14), 12.8",
+    technique="Lean 4 lemmas on the simulator model (per-hop) + spec monitor of the composed statement on the implementation's traces + exact-trace differential correspondence",
+    note=SIM_NOTE,
+)
+CLAIMED["C15"] = dict(
+    text="Proof (Lean 4) on the simulator model for every machine set, trace, network, fractions, stop setting and oracle: each side processes at most as many normal TunnelSent events as its share of the input and exactly that many when the run "
+         "stops because all normal packets were processed (counting invariant over the bit-faithful heap: push adds exactly the pushed element, pop removes exactly the returned one), also stated on the returned trace; recorded times are monotone and the "
+         "final sort is the identity; a TunnelRecv is queued only by a TunnelSent, exactly one, other side, same kind, at least one network delay later; the PaddingSent arm never creates or duplicates a normal packet. The one-to-one matching as a multiset statement "
+         "over the whole trace is checked by the monitor on the implementation's traces, not proved.",
+    ref="7 (C15), 12.8",
+    technique="Lean 4 counting invariant over the heap model + per-arm theorems + causality/conservation monitor on the implementation's traces + exact-trace differential correspondence",
+    note=SIM_NOTE,
+)
+CLAIMED["C16"] = dict(
+    text="Proof (Lean 4) on the simulator model: the expiry computed for a BlockOutgoing is the contract's (replace: t+dur, else the longer) away from duration 0; the fail-closed argument (C16_no_leak: whenever the queue branch pops a TunnelSent of a side with "
+         "active blocking, the packet has the bypass flag and the side's blocking is bypassable), under a queue-routing invariant proved to hold initially and after every iteration; BlockingBegin carries the due time, BlockingEnd is emitted once at the expiry. "
+         "Where the code is NOT the property it is stated as a theorem about the model and reported by the monitor on the implementation: bypass flag overwritten by the latest updating action (F7), duration 0 (F11/F11b), actions executed at selection time (S1) - "
+         "three open known findings with replays.",
+    ref="7 (C16), 12.8",
+    technique="Lean 4 theorems on the blocking update and the queue selection of the simulator model (+ deviation theorems) + property monitor with diagnosis tags on the implementation's traces + exact-trace differential correspondence",
+    note=SIM_NOTE,
+)
+CLAIMED["C17"] = dict(
+    text="Proof (Lean 4) on the simulator model: storing a returned action is exactly the contract's slot update (newer action overwrites, Cancel Action/All clears, other slots untouched); executing a scheduled action picks a slot whose due time is the target, "
+         "emits its event with the action's flags stamped with that due time and empties the slot (fires once); the offset served next is never beyond any pending action and stored due times are not in the past. The trace-level statement needs an 'every slot time >= now' loop invariant that is "
+         "not proved; the monitor checks it on the implementation and reports the early-execution finding S1 (open, with replay).",
+    ref="7 (C17), 12.8",
+    technique="Lean 4 theorems on slot update / firing / selection offsets of the simulator model + property monitor on the implementation's traces (actions recovered through the framework model) + exact-trace differential correspondence",
+    note=SIM_NOTE,
+)
+CLAIMED["C18"] = dict(
+    text="Proof (Lean 4) on the simulator model: the UpdateTimer arm equals the contract function written from the property text for every current timer, time, duration (0 included, since fix 68d125b) and replace flag; TimerBegin is queued only by an UpdateTimer at the clock; "
+         "TimerEnd fires once, stamped with the expiry, and clears the timer; Cancel Internal/All clears it; the served offset is never beyond a running timer. Trace level: monitor on the implementation; the early-execution finding S1 also affects superseded timers (open, with replay).",
+    ref="7 (C18), 12.8",
+    technique="Lean 4 equality of the timer update with the contract function + firing/selection theorems on the simulator model + property monitor + exact-trace differential correspondence",
+    note=SIM_NOTE,
+)
+CLAIMED["C19"] = dict(
+    text="Proof (Lean 4) on the simulator model for every machine set, queue, arguments and oracle: every filter setting returns exactly the unfiltered trace filtered by the observation-level predicate when the length cap does not bind, and a prefix of it when it does; "
+         "the run is a function of (machines, queue, arguments, oracle); pick_next always terminates within pickMeasure+1 recursive calls; the returned event is never before the clock; a run never ends in one of the five BUG assertions, in backwards time, exhausted fuel or divergence, "
+         "and for packets-per-second limits >= 1 not in a division by zero (fix 4ed778e; exactly the limit 0 still divides by zero); iteration and length bounds are respected. Reproducibility of the real code (same seed twice, all filter combinations) and agreement with the model are checked on every generated run.",
+    ref="7 (C19), 12.8",
+    technique="Lean 4 projection/prefix/totality theorems on the simulator model + repeat-run and filter differential on the implementation + exact-trace differential correspondence",
+    note=SIM_NOTE,
+)
+
 PENDING = {}
 
 ALL = [f"C{i:02d}" for i in range(1, 21)]
